@@ -178,6 +178,23 @@ def l_r2_escaping(p: Project, rep: Report, rule="L-R2", reader_decodable=False):
         ok = producers <= {"ET.tostring", "utils.tostring_unclosed_elements", "tostring_unclosed_elements"} and bool(producers)
         rep.check(rule, "serialize:body-producers", ok, f"serialize() builds the body with {sorted(producers)}; only ET.tostring (escapes) and tostring_unclosed_elements (checked above) are known to escape" if not ok else "", f"{p.module('ofxtools.Client').relpath}:{ser.lineno}")
         # tag names come from the element, text never used as a tag
+        # ... and no rendered data becomes part of a FORMAT TEMPLATE: the receiver of .format() / the left operand of
+        # `%` in the producer is a string literal - a template built from already-rendered children contains the
+        # caller's data, whose `{0}` / `{name}` / `%s` are then interpreted (replaced, or raise)
+        tmpl = None
+        for x in ast.walk(fn):
+            if isinstance(x, ast.Call) and isinstance(x.func, ast.Attribute) and x.func.attr == "format":
+                recv = x.func.value
+                if not (isinstance(recv, ast.Constant) and isinstance(recv.value, str)):
+                    rv = recv
+                    if isinstance(rv, ast.Name):
+                        ds_ = defs.get(rv.id, [])
+                        if len(ds_) == 1 and ds_[0].kind == "assign" and isinstance(ds_[0].value, ast.Constant):
+                            continue
+                    tmpl = tmpl or x
+            elif isinstance(x, ast.BinOp) and isinstance(x.op, ast.Mod) and not (isinstance(x.left, ast.Constant) and isinstance(x.left.value, str)) and any(isinstance(y, ast.Constant) and isinstance(y.value, str) and "%" in y.value for y in ast.walk(x.left)):
+                tmpl = tmpl or x
+        rep.check(rule, "tostring_unclosed_elements:format-templates-are-literals", tmpl is None, f"`{text(tmpl)[:70] if tmpl is not None else ''}`: the template is assembled at run time from rendered output - a value containing '{{0}}' is replaced by the enclosing tag, '{{1}}' by the tail, and a lone brace raises, so user ids, passwords and account ids with braces are not written as given" if tmpl is not None else "", uloc(p, tmpl if tmpl is not None else fn))
     return i
 
 
